@@ -14,11 +14,11 @@ DEMO_PKG=$(cat "$D/demo.path")          # package directory relative to the repo
 DEMO_FILE=$(ls "$D"/*_test.go | head -1)
 res() { echo "{\"applies\": $1, \"tests_pass_with_patch\": $2, \"demo_fails_with_patch\": $3, \"demo_passes_without_patch\": $4}"; }
 if ! git apply "$D/patch.diff"; then res false false false false; cd /; git -C /repo worktree remove --force "$W/wt"; rm -rf "$W"; exit 1; fi
-go build ./... >/dev/null 2>"$W/build.log" && go test -vet=off -count=1 ./... >"$W/test.log" 2>&1; T=$?
+go build ./... >/dev/null 2>"$W/build.log" && go test -vet=off -count=1 -timeout 900s ./... >"$W/test.log" 2>&1; T=$?
 cp "$DEMO_FILE" "$DEMO_PKG/"
-go test -vet=off -count=1 "./$DEMO_PKG/" -run . >"$W/demo_with.log" 2>&1; A=$?
+go test -vet=off -count=1 -timeout 300s "./$DEMO_PKG/" -run . >"$W/demo_with.log" 2>&1; A=$?
 git apply -R "$D/patch.diff"
-go test -vet=off -count=1 "./$DEMO_PKG/" -run . >"$W/demo_without.log" 2>&1; B=$?
+go test -vet=off -count=1 -timeout 300s "./$DEMO_PKG/" -run . >"$W/demo_without.log" 2>&1; B=$?
 [ $T -eq 0 ] && t=true || t=false
 [ $A -ne 0 ] && a=true || a=false
 [ $B -eq 0 ] && b=true || b=false
